@@ -122,6 +122,13 @@ CHECKS["C18"] = dict(
     ref="DESIGN.md 8 (C18)",
     technique="TLC trace validation of handle observations against SnapshotTrace.tla")
 
+CHECKS["C19"] = dict(
+    text="Isolation.tla: per-DMap abstract maps over two DMaps whose name+key concatenations collide; TLC checks that an operation changes only the DMap it names and exports "
+         "one operation path per distinct state. The driver replays them and random sequences (Incr, GetPut, Lock, Expire, Destroy through three client kinds) on clusters "
+         "N in 1..3, R in 1..2 and after every operation reads both DMaps completely: every key, a full scan, every member's primary and backup fragments (white box).",
+    ref="DESIGN.md 5.5, 8 (C19)",
+    technique="TLC model checking of Isolation.tla + replay of TLC-exported paths + TLC trace validation of complete read-backs (IsolationTrace.tla)")
+
 NOT_YET = {}
 
 def main():
